@@ -19,9 +19,14 @@
     beartype/_check/convert/_reduce/_pep/pep484/redpep484ref.py               } through the same resolver (`resolveH`)
 
   What is abstracted (DESIGN §4 C07 "limits"): real frame introspection is the list `St.stack` of running
-  activations with their locals; `eval` of a string is `evalH` over the parsed expression (`HExpr`; the printer
-  `showE` / parser `parseE` pair is in this file too); the objects names are bound to are opaque identities
-  `H.obj id` with an attribute table (`Heap`).
+  activations with their locals; a string annotation is represented by the expression CPython parses it to
+  (`HExpr.quoted e`, `H.str e`) and `eval` of that string is `evalH … true e` (the harness checks on every run
+  that `ast.parse` of each printed annotation yields exactly that expression); the objects names are bound to are
+  opaque identities `H.obj id` with an attribute table (`Heap`); the check of the resolved hint itself is the
+  Bear core's (`RH` is handed to it); `modAttr` models the module-attribute lookup AFTER the repair
+  fixes/C07_relative_dotted_forward_ref.patch (dotted names relative to the module) and `fwLocals` the scope
+  AFTER fixes/C07_frame_locals_copied.patch (no mutation of the frame's locals); absolute dotted module paths
+  (`'pkg.mod.Cls'` with `pkg` not bound in the module) are not modelled.
 
   The specification side (`specLookup`, `specNow`) is Python's own scoping for an annotation written at the
   `def` point: class body first (only when the def is directly in it), then the enclosing FUNCTION activations
@@ -221,35 +226,51 @@ def lexNames (s : St) (lex : List Nat) : List Name := lex.map (fun a => match s.
   | some fr => fr.name
   | none => "")
 
+/-- the running activation whose locals become `func_locals`: the lexical scope just outside the decorated
+    classes (`ignore_func_scope_names = len(cls_stack)`), i.e. the directly enclosing scope when the function itself
+    is decorated -/
+def parentFrame (s : St) (fr : FuncRec) (cs : List (Name × Nat)) : Option Frame :=
+  match (lexNames s fr.lex)[cs.length]? with
+  | some nm => findFrameNamed s nm s.stack
+  | none => none
+
+/-- `func_locals[root] = cls_root; func_locals[curr] = cls_curr; func_locals.update(cls_curr.__dict__)` -/
+def clsLayer (s : St) (cs : List (Name × Nat)) : Scope :=
+  match cs.head?, cs.getLast? with
+  | some root, some curr => s.heap.attrs curr.2 ++ [(curr.1, H.obj curr.2), (root.1, H.obj root.2)]
+  | _, _ => []
+
+def optLocals : Option Frame → Scope
+  | some f => f.locals
+  | none => []
+
 /-- `func_locals` and the parent frame's code object. `cs` = class stack (root first) when beartype decorates a
-    CLASS (then the classes of `cs` are the innermost `cs.length` lexical scopes and are skipped:
-    `ignore_func_scope_names = len(cls_stack)`); `cs = []` when it decorates the function itself. -/
+    CLASS; `cs = []` when it decorates the function itself. -/
 def fwLocals (s : St) (fr : FuncRec) (cs : List (Name × Nat)) : Scope × Option Nat :=
   if cs.isEmpty && fr.lex.isEmpty then ([], none)      -- not nested: no locals
   else
-    let found : Option Frame := match (lexNames s fr.lex)[cs.length]? with
-      | some nm => findFrameNamed s nm s.stack
-      | none => none
-    let base : Scope := match found with
-      | some f => f.locals
-      | none => []
-    let code := found.map (·.code)
-    match cs.head?, cs.getLast? with
-    | some root, some curr =>
-      -- func_locals[root] = cls_root; func_locals[curr] = cls_curr; func_locals.update(cls_curr.__dict__)
-      (s.heap.attrs curr.2 ++ [(curr.1, H.obj curr.2), (root.1, H.obj root.2)] ++ base, code)
-    | _, _ => (base, code)
+    (clsLayer s cs ++ optLocals (parentFrame s fr cs), (parentFrame s fr cs).map (·.code))
 
 /-- the layers of the forward scope, innermost (wins) first: `BeartypeForwardScope(builtins)`,
     `.update(func_globals)`, `.update(func_locals)` -/
 def fwLayers (s : St) (fr : FuncRec) (cs : List (Name × Nat)) : Scope :=
   (fwLocals s fr cs).1 ++ s.globals ++ s.builtins
 
+/-- a dictionary whose `__missing__` answers with a proxy -/
+def proxyLk (sc : Scope) (f : Nat) (frame : Option Nat) (n : Name) : Except Err H :=
+  match sc.get? n with
+  | some v => .ok v
+  | none => .ok (.fwd { owner := f, path := [n], frame })
+
+/-- a dictionary whose missing key is a NameError -/
+def boundLk (sc : Scope) (n : Name) : Except Err H :=
+  match sc.get? n with
+  | some w => .ok w
+  | none => .error (.name n)
+
 /-- `scope[name]` with `__missing__` -/
 def fwLk (s : St) (fr : FuncRec) (cs : List (Name × Nat)) (n : Name) : Except Err H :=
-  match (fwLayers s fr cs).get? n with
-  | some v => .ok v
-  | none => .ok (.fwd { owner := fr.fid, path := [n], frame := (fwLocals s fr cs).2 })
+  proxyLk (fwLayers s fr cs) fr.fid (fwLocals s fr cs).2 n
 
 def HExpr.unquote : HExpr → HExpr
   | .quoted e => e.unquote
@@ -575,5 +596,116 @@ where
   forceFreshL (s : St) : List H → List RH
   | [] => []
   | h :: hs => forceFresh s h :: forceFreshL s hs
+
+/-! ### small decidable views used by the witness theorems (`H`/`RH` are nested inductives without `DecidableEq`) -/
+
+/-- head constructor of a checked hint: (0, id) a class/object, (1,·) through a proxy, (2,·) name-based fake,
+    (3,·) raising leaf, (4,·) string, (5,·) subscription, (6,·) union, (7,·) literal -/
+def RH.tag : RH → Nat × Nat
+  | .obj id => (0, id)
+  | .via _ => (1, 0)
+  | .fake _ => (2, 0)
+  | .unres _ => (3, 0)
+  | .str _ => (4, 0)
+  | .sub _ _ => (5, 0)
+  | .bor _ _ => (6, 0)
+  | .lit _ => (7, 0)
+
+/-- (tag of the implementation's hint, tag of the specified hint) of a call -/
+def Out.tags : Out → Option ((Nat × Nat) × (Nat × Nat))
+  | .called i sp => some (i.tag, sp.tag)
+  | _ => none
+
+def lastTags (outs : List Out) : Option ((Nat × Nat) × (Nat × Nat)) := outs.getLast?.bind Out.tags
+
+def H.objId? : H → Option Nat
+  | .obj id => some id
+  | _ => none
+
+/-- the `k`-th output's tags -/
+def tagsAt (outs : List Out) (k : Nat) : Option ((Nat × Nat) × (Nat × Nat)) := outs[k]?.bind Out.tags
+
+/-- attribute access only on sub-expressions all of whose names satisfy `bound` (used by `C07_late`: a dotted
+    name whose root is defined late is resolved by `modAttr`, stated separately) -/
+def lateSafe (bound : Name → Bool) : HExpr → Bool
+  | .name _ => true
+  | .attr e _ => e.names.all bound
+  | .sub e es => lateSafe bound e && lateSafeL bound es
+  | .bor a b => lateSafe bound a && lateSafe bound b
+  | .lit _ => true
+  | .quoted e => lateSafe bound e
+where
+  lateSafeL (bound : Name → Bool) : List HExpr → Bool
+  | [] => true
+  | e :: es => lateSafe bound e && lateSafeL bound es
+
+/-- what is bound at module level (globals over builtins) -/
+def St.modScope (s : St) : Scope := s.globals ++ s.builtins
+
+/-! ### module-level histories (statement vocabulary of `C07_history_*`) -/
+
+/-- every proxy inside is frameless (as created for a callable defined at module level) -/
+def H.frameless : H → Bool
+  | .fwd p => p.frame.isNone
+  | .sub h args => h.frameless && framelessL args
+  | .bor a b => a.frameless && b.frameless
+  | _ => true
+where
+  framelessL : List H → Bool
+  | [] => true
+  | h :: hs => h.frameless && framelessL hs
+
+/-- an event of a program all of whose statements are at module level (no function or class bodies); bound
+    values are hint objects without proxies -/
+def Ev.modLevel : Ev → Bool
+  | .bindV _ v => v.closed
+  | .bindE _ e => e.plain
+  | .def_ _ _ _ => true
+  | .decorate _ cs => cs.isEmpty
+  | .call _ => true
+  | .enter _ _ _ => false
+  | .leave _ => false
+
+/-- a binding event binds a name that is bound nowhere at module level yet (nothing is REbound) -/
+def Ev.fresh (s : St) : Ev → Bool
+  | .bindV n _ => (s.modScope.get? n).isNone
+  | .bindE n _ => (s.modScope.get? n).isNone
+  | _ => true
+
+/-- module-level history without rebinding, from state `s` -/
+def ModHistory (s : St) : List Ev → Prop
+  | [] => True
+  | ev :: evs => ev.modLevel = true ∧ ev.fresh s = true ∧ ModHistory (step s ev).1 evs
+
+/-- the event (re)defines or (re)decorates callable `f` -/
+def Ev.touches (f : Nat) : Ev → Bool
+  | .def_ g _ _ => g == f
+  | .decorate g _ => g == f
+  | _ => false
+
+
+/-! ### predicates used in the statements of `Props/C07.lean` -/
+
+/-- every attribute value in the heap is a hint object without proxies / strings -/
+def HeapClosed (hp : Heap) : Prop := ∀ id n v, (hp.attrs id).get? n = some v → v.closed = true
+
+/-- evaluation survives a heap that only gains entries -/
+def HeapMono (hp0 hp : Heap) : Prop := ∀ id n w, (hp0.attrs id).get? n = some w → (hp.attrs id).get? n = some w
+
+/-- every cached referent is what resolving the proxy NOW (without the cache) yields -/
+def CacheOK (s : St) (c : List (Proxy × Ref)) : Prop :=
+  ∀ p r, cacheGet? c p = some r → resolveFresh s p = .ok r
+
+/-- only frameless proxies are cached -/
+def CacheFrameless (c : List (Proxy × Ref)) : Prop := ∀ p r, cacheGet? c p = some r → p.frame = none
+
+/-- what every module-level history preserves -/
+structure ModInv (s : St) : Prop where
+  top : s.stack = []
+  cacheOK : CacheOK s s.cache
+  cfl : CacheFrameless s.cache
+  funcs : ∀ fr ∈ s.funcs, fr.lex = [] ∧ fr.hint0.frameless = true ∧ ∀ h, fr.hint = some h → h.frameless = true
+  scopeClosed : ∀ n w, s.modScope.get? n = some w → w.closed = true
+  heapClosed : HeapClosed s.heap
 
 end BearVerif.Fwd
